@@ -6,6 +6,12 @@ import os
 VERIF = os.path.dirname(os.path.dirname(os.path.abspath(__file__)))
 
 CHECKS = {
+    "C11": ("monitors on the real copula callables and the volume/margin operators over generated argument vectors and rectangles; oracle: harness 2^d corner sums, integration of the stated derivative against exact F-volumes, monotonicity meshes, inverse round trips",
+            "Held-on-observed: grounded, d-increasing (incl. rectangles straddling 0 and infinite upper sides), identity margins for Clayton (eta in [0,1] incl. end points), independent and dependent copulas in d=2,3; Clayton conditional distribution / inverse; mixed-derivative relation (known finding).",
+            "Rectangles with corners in (-inf, inf]^d except the all-infinite upper corner; scipy nquad trusted.", "3/C11"),
+    "C12": ("monitors on LevyCopulaModel.mass (fast paths), _mass_nd, tail integrals and their inverse over generated rectangles interleaved over several instances; oracle: corner-sum definition on quadrature tail integrals, additivity, marginal quadrature",
+            "Held-on-observed: non-negativity, fast = general = definition for every sign pattern, additivity under random splits incl. at 0, whole-line = margin, index subsets = I-margins, inverse tail integral round trips, instance-history independence.",
+            "Copula callable trusted (C11); absolute floor 1e-14 x marginal mass for closed-form rounding.", "3/C12"),
     "C03": ("exact measurement of the coupling kernel as a function of the scripted coupling uniform after real next_level() calls; conservation / locality checker against independent cell masses of both grids; recorded previous-level drift and diffusion; replay of a logged coupled simulation through the measured kernel",
             "Held-on-observed: rate conservation for every coarse state, locality of every increment, coarse drift/diffusion of level l-1, shared Brownian increments, coarse path = image of the fine path; 1-d (all methods, 3 simulation modes, levels 1..3) and 2-d/3-d copulas.",
             "Cell masses from quadrature / corner sums; chains with intensity >= 1e-9; finite-variation copulas.", "3/C03"),
